@@ -436,7 +436,7 @@ fn c08_one(ctx: &Ctx, ms: &MateScores, c: &C08Case) {
 }
 
 pub fn c08(o: &Opts) -> i32 {
-    let ctx = default_ctx("C08", o, 150.0, 900.0);
+    let ctx = default_ctx("C08", o, 210.0, 900.0);
     let mut retro_cases: Vec<C08Case> = vec![];
     let q = ctx.quick();
     let ms = probe_mate_scores();
@@ -478,6 +478,9 @@ pub fn c08(o: &Opts) -> i32 {
         // stalemates of the side that is ahead: the side that is behind has a quiet saving move deep in the tree
         let frozen = gen::frozen_stronger_side_stalemates(&mut tr, if q { 2_000_000 } else { 12_000_000 });
         ctx.count("stalemates_of_the_materially_stronger_side_sampled", frozen.len() as u64);
+        let deep = gen::roots_four_plies_before_a_quiet_finish(&frozen, &mut tr, if q { 1200 } else { 12000 });
+        ctx.count("roots_four_plies_before_a_quiet_stalemating_move_of_the_weaker_side", deep.len() as u64);
+        roots.extend(deep);
         let fr = gen::roots_before(frozen, &mut tr, if q { 300 } else { 3000 });
         ctx.count("roots_up_to_four_plies_before_a_stalemate_of_the_stronger_side", fr.len() as u64);
         roots.extend(fr);
@@ -536,6 +539,8 @@ pub fn c08(o: &Opts) -> i32 {
         else if let Some(h) = v["context_history"].as_array() { cases = vec![C08Case::Prewarmed { p: Pos::from_fen(v["fen"].as_str().unwrap()).unwrap(), others: h.iter().map(|x| Pos::from_fen(x.as_str().unwrap()).unwrap()).collect(), depth, pool: 1 }]; }
         else { cases = vec![C08Case::Fresh { p: Pos::from_fen(v["fen"].as_str().unwrap()).unwrap(), depth, pool: v["pool"].as_u64().unwrap_or(1) as usize }]; }
     }
+    // shares of the wall-clock budget at which the three phases stop (quick: the whole list of retro roots is searched)
+    let share: (f64, f64, f64) = if q { (0.25, 0.72, 0.92) } else { (0.33, 0.6, 0.9) };
     // bulk phase: very many cheap searches (sparse, transposition- and tie-rich positions with few root
     // moves, so that the per-root-move generator construction does not dominate), brand-new context each
     if o.replay.is_none() {
@@ -554,12 +559,12 @@ pub fn c08(o: &Opts) -> i32 {
             let depth = if n <= 7 && br.chance(0.5) { 4 } else { 3 };
             bulk.push(C08Case::Fresh { p, depth, pool: *br.pick(&[1usize, 1, 2, 3]) });
         }
-        par::for_each(&bulk, par::threads(), |_i, c| { if ctx.budget_used() < 0.33 { c08_one(&ctx, &ms, c); ctx.count("bulk_small_searches", 1); } },
+        par::for_each(&bulk, par::threads(), |_i, c| { if ctx.budget_used() < share.0 { c08_one(&ctx, &ms, c); ctx.count("bulk_small_searches", 1); } },
             |_i, _c, msg| ctx.violation(&format!("c08:panic:{}", par::last_panic_location()), &format!("panic around a search: {}", msg), json!({})));
-        par::for_each(&retro_cases, par::threads().min(12), |_i, c| { if ctx.budget_used() < 0.6 { c08_one(&ctx, &ms, c); ctx.count("searches_from_roots_before_a_terminal_position", 1); } },
+        par::for_each(&retro_cases, par::threads().min(12), |_i, c| { if ctx.budget_used() < share.1 { c08_one(&ctx, &ms, c); ctx.count("searches_from_roots_before_a_terminal_position", 1); } },
             |_i, _c, msg| ctx.violation(&format!("c08:panic:{}", par::last_panic_location()), &format!("panic around a search: {}", msg), json!({})));
     }
-    par::for_each(&cases, 4, |_i, c| { if ctx.budget_used() < 0.9 { c08_one(&ctx, &ms, c) } else { ctx.count("cases_skipped_for_time_budget", 1) } },
+    par::for_each(&cases, 4, |_i, c| { if ctx.budget_used() < share.2 { c08_one(&ctx, &ms, c) } else { ctx.count("cases_skipped_for_time_budget", 1) } },
         |_i, _c, msg| ctx.violation(&format!("c08:panic:{}", par::last_panic_location()), &format!("panic around a search: {}", msg), json!({})));
     ctx.set_extra("mate_scores_read_black_box", json!({"white_mated_remaining_0": ms.white_mated[0], "black_mated_remaining_0": ms.black_mated[0]}));
     ctx.finish(ctx.counter("searches_compared"),
